@@ -88,6 +88,9 @@ func (vc *VC) effectsOfNode(ctx *pkgCtx, n ast.Node) *Effects {
 			if sl, ok := t.Underlying().(*types.Slice); ok {
 				vc.addElemHeaps(e, sl.Elem())
 			}
+			if ar, ok := t.Underlying().(*types.Array); ok && structOf(ar.Elem()) == nil {
+				vc.addElemHeaps(e, ar.Elem())
+			}
 		case *ast.SelectorExpr:
 			if sel, ok := ctx.info.Selections[l]; ok && sel.Kind() == types.FieldVal {
 				// owner of final field
@@ -159,6 +162,13 @@ func (vc *VC) effectsOfNode(ctx *pkgCtx, n ast.Node) *Effects {
 					vc.addElemHeaps(e, u.Elem())
 				case *types.Struct:
 					vc.addStructHeaps(e, t)
+				}
+			}
+		case *ast.SliceExpr:
+			// slicing a local array moves it into the heap
+			if t := ctx.info.TypeOf(s.X); t != nil {
+				if ar, ok := t.Underlying().(*types.Array); ok && structOf(ar.Elem()) == nil {
+					vc.addElemHeaps(e, ar.Elem())
 				}
 			}
 		case *ast.CallExpr:
